@@ -3,6 +3,7 @@ from __future__ import annotations
 
 import json
 import random
+import zlib
 from io import BytesIO, StringIO
 from pathlib import Path
 
@@ -15,7 +16,7 @@ RULE = (
     "case = a program: a random interleaving of operations over 2-4 objects of the same or related classes - "
     "registers of two classes that share ONE Line object or one Field object, and of a class deriving from one of them with a layout of its own (construct, read a line, write, mutate "
     "own data, mutate the list a read returned), register files (construct without arguments, read content, append / "
-    "remove elements, MOVE an element from one file to another (remove there, append here), write), block and section files constructed without arguments. An element may also be TAKEN OUT of a file and kept by the caller while that file goes on with operations of its own, and be PUT INTO a file of the same family later (append, preppend, add_after the first, add_before the last element; registers, default blocks and default sections; the same element may travel several times): the file it left is not changed by where the element goes afterwards. After each of its own "
+    "remove elements, MOVE an element from one file to another (remove there, append here), write), block and section files constructed without arguments. An element may also be TAKEN OUT of a file and kept by the caller while that file goes on with operations of its own, and be PUT INTO a file of the same family later (append, preppend, add_after the first, add_before the last element; registers, default blocks and default sections; the same element may travel several times): the file it left is not changed by where the element goes afterwards. The LISTS a container hands out are objects of the caller too: at any point of a file's history the caller may query its container by type (get_registers_of_type / get_blocks_of_type / get_sections_of_type without filters, or list(of_type), for a base class, a default class or one register class), keep the list and edit it in place, at once or later (reverse, pop, clear, append an element of his own, ...), possibly holding two lists of one file; neither the query nor the edits belong to the file's own operations (its isolated replay has none of them; each list is compared with a replay of its file and itself alone), and a file may remove its elements by type afterwards; the observables of a file include what its container answers to the queries by type. After each of its own "
     "operations every object's observables are recorded (register data and written text; file length, element data, "
     "written output). The same operations of EACH object alone are then replayed on fresh objects; the two "
     "observation sequences must be identical for every object (Driver C14 handler), and: files constructed without "
@@ -93,7 +94,77 @@ def obs_file(f, binary=False):
         w = buf.getvalue()
     except Exception as e:
         w = "EXC:" + type(e).__name__
-    return {"elems": elems, "written": w}
+    return {"elems": elems, "written": w, "by_type": obs_by_type(f)}
+
+
+BASES = {"RF": ("Register", "DefaultRegister"), "BF": ("Block", "DefaultBlock"), "SF": ("Section", "DefaultSection")}
+
+
+def family_of(f):
+    d = f.data
+    return "RF" if hasattr(d, "get_registers_of_type") else ("BF" if hasattr(d, "get_blocks_of_type") else "SF")
+
+
+def type_of(env, name):
+    if env is not None and name in env:
+        return env[name]
+    import importlib
+
+    return getattr(importlib.import_module("cfinterface.components." + name.lower()), name)
+
+
+def query(env, f, cls, via="get"):
+    """what the container of `f` answers to a query by type without filters, as a list (None: no element,
+    a single element: a list of the caller's own)"""
+    d, t = f.data, (type_of(env, cls) if isinstance(cls, str) else cls)
+    if via == "of":
+        return list(d.of_type(t))
+    got = getattr(d, {"RF": "get_registers_of_type", "BF": "get_blocks_of_type", "SF": "get_sections_of_type"}[family_of(f)])(t)
+    return [] if got is None else (got if isinstance(got, list) else [got])
+
+
+def obs_by_type(f):
+    """the answers of the container to queries by type: for the base class and the default class of the family
+    and for every register class of a member (members named by their position in the container)"""
+    try:
+        members = list(fsup.capped(f.data, 500))
+        pos = {id(m): i for i, m in enumerate(members)}
+
+        def name(e):
+            return pos[id(e)] if id(e) in pos else "not a member: " + type(e).__name__ + " " + repr(getattr(e, "data", None))[:40]
+
+        types = {n: type_of(None, n) for n in BASES[family_of(f)]}
+        for m in members:
+            for k in type(m).__mro__:
+                if k.__name__ in ("RA", "RB", "RC", "RD", "RE", "RG"):
+                    types.setdefault(k.__name__, k)
+        return {n: {"get": [name(e) for e in query(None, f, t, "get")], "of_type": [name(e) for e in query(None, f, t, "of")]} for n, t in types.items()}
+    except Exception as e:
+        return "EXC:" + type(e).__name__
+
+
+def obs_list(lst):
+    return {"list": [[type(e).__name__, [codec.enc_val(v) for v in e.data] if isinstance(e.data, list) else codec.enc_val(e.data)] for e in lst[:200]]}
+
+
+def edit_list(env, lst, edit, fcls):
+    """the caller edits a list he was given"""
+    if edit == "reverse":
+        lst.reverse()
+    elif edit == "pop":
+        if lst:
+            lst.pop()
+    elif edit == "pop0":
+        if lst:
+            lst.pop(0)
+    elif edit == "clear":
+        lst.clear()
+    elif edit == "append_own":
+        lst.append(make_element(env, {"fcls": fcls, "text": "mine\n"}))
+    elif edit == "double":
+        lst.extend(list(lst))
+    elif edit == "sort":
+        lst.sort(key=lambda e: repr(e.data))
 
 
 def make_element(env, step):
@@ -216,6 +287,22 @@ def apply(env, objs, step):
         kind, f = objs[oid]
         if len(f.data) > 1:
             f.data.remove(f.data.last)
+    elif op == "file_remove_type":
+        kind, f = objs[oid]
+        getattr(f.data, {"RF": "remove_registers_of_type", "BF": "remove_blocks_of_type", "SF": "remove_sections_of_type"}[family_of(f)])(type_of(env, step["cls"]))
+    elif op == "list_query":
+        # an object of the CALLER: the list the container of file `near` answers a query by type with; he
+        # keeps it and edits it (now and in later list_edit steps)
+        near = objs.get(step["near"])
+        lst = query(env, near[1], step["cls"], step.get("via", "get")) if near is not None and near[0] == "file" else []
+        for e in step.get("edits", []):
+            edit_list(env, lst, e, step["fcls"])
+        objs[oid] = ("list", lst)
+        return obs_list(lst)
+    elif op == "list_edit":
+        kind, lst = objs[oid]
+        edit_list(env, lst, step["edit"], step["fcls"])
+        return obs_list(lst)
     elif op == "file_write":
         kind, f = objs[oid]
         try:
@@ -225,20 +312,24 @@ def apply(env, objs, step):
     kind, o = objs[oid]
     if kind == "loose":
         return {"loose": o.data}
+    if kind == "list":
+        return obs_list(o)
     return obs_reg(o) if kind == "reg" else obs_file(o)
 
 
 def run_program(steps, only=None):
     env = make_env()
     objs, out = {}, {}
+    # the isolated run of a list the caller was given by a container: the operations of that file and of the list
+    keep = {only} | {s["near"] for s in steps if s["obj"] == only and s.get("op") == "list_query"}
     for st in steps:
         st = dict(st)
-        if only is not None and st["obj"] != only:
-            if st.get("op") == "file_move_in" and st.get("src") == only:
+        if only is not None and st["obj"] not in keep:
+            if st.get("op") == "file_move_in" and st.get("src") in keep:
                 st["__mode__"] = "src_only"  # the source file only loses the element
             else:
                 continue
-        elif only is not None and st.get("op") == "file_move_in":
+        elif only is not None and st.get("op") == "file_move_in" and st.get("src") not in keep:
             st["__mode__"] = "dst_only"  # the destination alone receives an equal fresh element
         try:
             o = apply(env, objs, st)
@@ -254,7 +345,7 @@ def run_program(steps, only=None):
         kind, o = val
         if only is None or oid == only:
             try:
-                out.setdefault(oid, []).append({"loose": o.data} if kind == "loose" else (obs_reg(o) if kind == "reg" else obs_file(o)))
+                out.setdefault(oid, []).append({"loose": o.data} if kind == "loose" else (obs_list(o) if kind == "list" else (obs_reg(o) if kind == "reg" else obs_file(o))))
             except Exception as e:
                 out.setdefault(oid, []).append({"exc": type(e).__name__})
     return out
@@ -423,7 +514,16 @@ def judge(case, obs, resp):
         for i in resp.get("objects_changed_by_others", []):
             o = obs["objects"][i]
             k = next((j for j in range(max(len(o["interleaved"]), len(o["isolated"]))) if j >= len(o["interleaved"]) or j >= len(o["isolated"]) or o["interleaved"][j] != o["isolated"][j]), None)
-            why.append(f"object {o['obj']} differs from its isolated run at its observation #{k}: interleaved {json.dumps(o['interleaved'][k] if k is not None and k < len(o['interleaved']) else None)[:200]} isolated {json.dumps(o['isolated'][k] if k is not None and k < len(o['isolated']) else None)[:200]}")
+            a = o["interleaved"][k] if k is not None and k < len(o["interleaved"]) else None
+            b = o["isolated"][k] if k is not None and k < len(o["isolated"]) else None
+            if isinstance(a, dict) and isinstance(b, dict) and a.keys() == b.keys():
+                # only the observables that differ
+                dk = [x for x in a if a[x] != b[x]]
+                a, b = {x: a[x] for x in dk}, {x: b[x] for x in dk}
+                if dk == ["by_type"] and isinstance(a["by_type"], dict) and isinstance(b["by_type"], dict):
+                    a = {"by_type": {x: v for x, v in a["by_type"].items() if b["by_type"].get(x) != v}}
+                    b = {"by_type": {x: v for x, v in b["by_type"].items() if x in a["by_type"]}}
+            why.append(f"object {o['obj']} differs from its isolated run at its observation #{k}: interleaved {json.dumps(a)[:200]} isolated {json.dumps(b)[:200]}")
         if resp.get("failed"):
             why.append(f"{resp['failed']} false")
         if resp.get("registers_differing_from_world_model"):
@@ -573,7 +673,48 @@ def random_case(rng):
                 steps.append({"obj": loose_id, "op": "loose_element", "near": oid, "fcls": fcls, "side": rng.choice(["previous", "next"])})
             else:
                 steps.append({"obj": oid, "op": "file_write"})
-    return {"steps": steps, "defaults": rng.random() < 0.2}
+    return with_caller_lists({"steps": steps, "defaults": rng.random() < 0.2})
+
+
+EDITS = ["reverse", "pop", "pop0", "clear", "append_own", "double", "sort"]
+
+
+def with_caller_lists(case):
+    """in half of the programs the caller also asks containers for their elements by type, keeps the lists and
+    edits them (choices drawn from a generator of their own, derived from the program)"""
+    steps = list(case["steps"])
+    rng = random.Random(zlib.crc32(json.dumps(steps, sort_keys=True).encode()))
+    if rng.random() >= 0.5:
+        return case
+    files = {}
+    for s in steps:
+        if s["op"] == "file_read":
+            files.setdefault(s["obj"], "RF")
+        elif s["op"] == "new_file":
+            files.setdefault(s["obj"], s["cls"])
+    if not files:
+        return case
+    travel = {x for s in steps if s["op"] in ("file_take_out", "file_put_in", "file_move_in") for x in (s["obj"], s.get("src"))}
+    nid = 2000
+    for _ in range(rng.choice([1, 1, 2])):
+        fid = rng.choice(sorted(files))
+        fcls = files[fid]
+        first = next(i for i, s in enumerate(steps) if s["obj"] == fid and s["op"] in ("file_read", "new_file"))
+
+        def a_class():
+            if fcls != "RF" or rng.random() < 0.5:
+                return rng.choice(BASES[fcls] + BASES[fcls][:1])
+            return rng.choice(["RA", "RB", "RC", "RD", "RE", "RG"])
+
+        p = rng.randrange(first + 1, len(steps) + 1)
+        steps.insert(p, {"obj": nid, "op": "list_query", "near": fid, "fcls": fcls, "cls": a_class(), "via": rng.choice(["get", "get", "of"]), "edits": [rng.choice(EDITS) for _ in range(rng.randrange(0, 3))]})
+        for _ in range(rng.randrange(0, 3)):
+            steps.insert(rng.randrange(p + 1, len(steps) + 1), {"obj": nid, "op": "list_edit", "fcls": fcls, "edit": rng.choice(EDITS)})
+        if fid not in travel and rng.random() < 0.3:
+            # (only files none of whose elements travels: a travelling element must still be where the program expects it)
+            steps.insert(rng.randrange(p + 1, len(steps) + 1), {"obj": fid, "op": "file_remove_type", "cls": a_class()})
+        nid += 1
+    return {**case, "steps": steps}
 
 
 def corpus_cases():
